@@ -468,8 +468,6 @@ def pred_c09(tr, story):
                 continue
             s_i, t0, bound = started[tid]
             ended[tid] = i
-            if now - t0 > bound and tid not in cancelled:
-                v.append(("C09/bound", f"task {tid} ended {now - t0} units after it started (bound {bound}, 1/1024 s)", i))
             if res == "ok":
                 continue
             if res == "C":
